@@ -519,7 +519,11 @@ func c19Explore(c *core.Ctx, cfg c19Cfg, race bool, only []int, onFail func(cs c
 	}
 	outcomes := map[string]int64{}
 	nfail := 0
+	var sample []string
 	e.OnExec = func(x *schedx.Execution) {
+		if e.Executions == 3 && !x.Truncated {
+			sample = x.Describe()
+		}
 		fs := judge(x, &raceBefore)
 		out := "same as sequential"
 		if len(fs) > 0 {
@@ -538,7 +542,7 @@ func c19Explore(c *core.Ctx, cfg c19Cfg, race bool, only []int, onFail func(cs c
 		c.InternalError("C19 %+v: %v", cfg, err)
 	}
 	rep = map[string]any{"config": fmt.Sprintf("%+v", cfg), "race_monitor": race, "executions": e.Executions, "scheduling_choices": e.Transitions,
-		"distinct_states": len(e.States), "pruned_at_visited_state": e.Pruned, "max_points": e.MaxPoints, "outcomes": outcomes, "completed": !e.Capped, "wall_s": time.Since(start).Seconds()}
+		"distinct_states": len(e.States), "pruned_at_visited_state": e.Pruned, "max_points": e.MaxPoints, "outcomes": outcomes, "completed": !e.Capped, "wall_s": time.Since(start).Seconds(), "sample_schedule": sample}
 	return e, rep
 }
 
@@ -599,6 +603,11 @@ func init() {
 			c.Set("evaluations", execs)
 			c.Set("distinct_nontrivial", states)
 			c.Set("configs", report)
+			for _, r := range report {
+				if s, ok := r["sample_schedule"].([]any); ok && len(s) > 0 && c.WantSample() {
+					c.Sample(map[string]any{"config": r["config"], "one_explored_schedule": s})
+				}
+			}
 			c.Sample(map[string]any{"cfg": c19Cfg{T: "int8", C: 2, R: 2, W: 2, Menu: 0, Bound: -1}, "threads": "readers: samples, Read, Slice+reads, conversion source; writers: Slice(lo,hi) then SetSample, Write, conversion destination, Channel.SetSample"})
 			c.Set("rule", "one shared buffer (6 frames, 1-2 channels, int8/uint16/float32; readers-only variants with 2-3 channels whose last frame is partly filled and whose header nobody touched before the threads start) split into a read-only region and one 2-frame range per writer; R readers run every read-only entry point (Sample, shape methods, BufferIndex, Read, ReadStriped, Slice + reads, Channel views, the three conversion families with the shared buffer as source), W writers each take their own Slice and use SetSample, Write, WriteStriped, Channel.SetSample and a conversion with the window as destination; every interleaving at operation granularity (state-key pruning) for (R,W) in {(2,0),(3,0),(1,1),(2,2),(1,2)} [+ (4,0),(3,2),(0,3),(2,3) thorough]; oracle: every thread's observations, the final contents and the shape equal those of the sequential schedule; the bounded pass in the -race build reports conflicting accesses; and for every one of the 169 instantiations two readers of one source / two writers into disjoint windows of one destination (6 and 600 frames, 2 and 9 channels) under the race monitor")
 			c.Assume("operation granularity suffices because the race monitor shows the operations conflict-free on every explored schedule (conflict-free operations are both-movers)", "the Go race detector is trusted as happens-before monitor; GOMAXPROCS 1 by construction")
